@@ -175,6 +175,31 @@ CLAIMED = {
    note='Trusted: rustc MIR, extractor, call graph; impl_myers! is analysed in both instantiations (simple, long).',
    technique='static analysis: guard dominance, who-may-call over the call graph, must-pass-through ordering over rustc MIR',
    ref='DESIGN.md section 2, C10'),
+
+ 'C11': dict(level='other',
+   text='Robustness clauses decided on the MIR of the FASTA/FASTQ readers, record iterators and sniffers: (PO-2) every MIR Assert '
+        'and may-panic std call reachable from them is discharged (interval analysis; line[1..] by the dominating '
+        'starts_with(<ASCII char>) guard) or audited, explicit panics are violations; (ED-1) every Result produced there is '
+        'propagated/inspected, never unwrapped or dropped; (LP-1) every parser loop is counted or clears its line buffer before '
+        'read_line and exits on an empty buffer (necessary condition for termination at EOF); (TB-3) writer first byte / separator, '
+        'reader markers, sniffer mapping, Kind-to-parser pairing agree and every Ok path of get_kind_detailed carries '
+        'Cursor::new(sniffed byte).chain(reader). Losslessness over all records, layouts, buffer capacities and chunkings and which '
+        'records survive truncation are NOT decided.',
+   note='Trusted: rustc MIR, extractor, interval engine, 2 audited obligations; the user-supplied BufRead does not panic; std read_line reports invalid UTF-8 as an error.',
+   technique='static analysis: panic-obligation enumeration with interval discharge, error-discipline and loop-shape rules, table agreement over rustc MIR',
+   ref='DESIGN.md section 2, C11'),
+ 'C12': dict(level='other',
+   text='Error and independence clauses decided on the MIR of IndexedReader: (GD-4) read/read_iter reach read_into_* only when '
+        'fetched_idx, start and stop are all Some, both read_into_* validate stop <= idx.len and start <= stop before seek_to with '
+        'Err on the other edges, unknown names/record numbers give Err, read_line turns an exhausted reader into '
+        'Err(UnexpectedEof) before copying/consuming, fill_buffer only runs with bases left; (SB-2) buffer and iterator paths make '
+        'the same interval checks; (TS-6) every fetch* sets start, stop and fetched_idx on every success path and nothing on the '
+        'failure path, from the parameters in order; (PO-3) all reachable panic obligations are discharged (stop - start via a '
+        'difference constraint) or audited. Exactness of offsets for every (start, stop, width, CRLF) and buffer fragmentation is '
+        'NOT decided.',
+   note='Trusted: rustc MIR, extractor, interval engine, 16 audited obligations (rules/c12.py); assumes index line width >= 1 as in the property quantifier.',
+   technique='static analysis: guard dominance / must-store typestate / sibling agreement / panic obligations over rustc MIR',
+   ref='DESIGN.md section 2, C12'),
 }
 
 NOT_BUILT = 'rule not built yet (see DESIGN.md section 6)'
